@@ -860,6 +860,8 @@ class VM:
                 if compiled_func.is_arrow:
                     # An arrow function uses the this of the code that created it
                     js_func._bound_this = frame.this_value
+                elif compiled_func.is_method:
+                    pass  # a method is not a constructor and has no prototype property
                 else:
                     # Create prototype object for the function
                     # In JavaScript, every function has a prototype property
@@ -2625,6 +2627,8 @@ class VM:
             target = getattr(constructor, "_original_func", constructor)
             if getattr(getattr(target, "_compiled", None), "is_arrow", False):
                 raise JSTypeError("Arrow functions cannot be used as constructors")
+            if getattr(getattr(target, "_compiled", None), "is_method", False):
+                raise JSTypeError(f"{target.name or 'method'} is not a constructor")
             # Create new object
             obj = JSObject()
             # Set prototype from constructor's prototype property
